@@ -32,6 +32,8 @@ from pyvc.core import PyvcError  # noqa: E402
 REPO = src.REPO
 KNOWN = os.path.join(ROOT, "known_findings.json")
 LOCK = os.path.join(ROOT, "obligations.lock.json")
+# where evidence/ and replay/ are written (default: /verif itself); set to run several trees side by side (tools/canary.sh)
+OUT = os.environ.get("VERIF_OUT", ROOT)
 
 GLOBAL_ASSUMPTIONS = [
     "pyvc itself (AST front end, symbolic semantics of the python subset as listed in DESIGN 2.3, VC generation) and the SMT solvers z3 4.8.12 / z3 5.1 / cvc5 1.0.3",
@@ -276,7 +278,7 @@ def sanitize(name):
 
 
 def write_replay(prop, name, payload):
-    d = os.path.join(ROOT, "replay", prop)
+    d = os.path.join(OUT, "replay", prop)
     os.makedirs(d, exist_ok=True)
     path = os.path.join(d, sanitize(name) + ".json")
     with open(path, "w") as fh:
@@ -477,8 +479,8 @@ def run_check(check, tier, seed):
         "wall_s": round(time.time() - t_start, 2),
         "violations": len(violations),
     }
-    os.makedirs(os.path.join(ROOT, "evidence"), exist_ok=True)
-    with open(os.path.join(ROOT, "evidence", f"{prop}.json"), "w") as fh:
+    os.makedirs(os.path.join(OUT, "evidence"), exist_ok=True)
+    with open(os.path.join(OUT, "evidence", f"{prop}.json"), "w") as fh:
         json.dump(ev, fh, indent=1, default=str)
 
     for l in lines:
